@@ -18,6 +18,12 @@ def plan(pid, tier, seed):
     runs = []
     if pid in RUNTIME:
         runs.append(("drive", lambda: engines.drive(tier, seed)))
+        # the same histories in a release build (debug-only assertions off, overflow checks off)
+        runs.append(("drive-release", lambda: engines.drive(tier, seed, release=True, small=True)))
+    if pid in ("C06", "C07"):
+        runs.append(("loops", lambda: engines.loops(tier, seed)))
+    if pid in ("C13", "C07", "C01"):
+        runs.append(("drive-events", lambda: engines.drive(tier, seed, features=("events",), small=True)))
     if pid in ("C01", "C02", "C03", "C08", "C09", "C12"):
         runs.append(("storage_mc", lambda: engines.storage_mc(tier, seed)))
     if pid in ("C01", "C08", "C09", "C12"):
@@ -28,8 +34,6 @@ def plan(pid, tier, seed):
         runs.append(("capacity", lambda: engines.capacity(tier, seed)))
     if pid in ("C03", "C04", "C10"):
         runs.append(("monitor", lambda: engines.monitor(tier, seed)))
-    if pid in ("C03",):
-        runs.append(("drive-release", lambda: engines.drive(tier, seed, release=True)))
     if pid in ("C01", "C08", "C09", "C10", "C07"):
         runs.append(("boundary", lambda: engines.boundary(tier, seed)))
     if pid in ("C08", "C10", "C09"):
@@ -175,6 +179,21 @@ def main(argv):
     if "--tier" in argv:
         tier = argv[argv.index("--tier") + 1]
     seed = int(os.environ.get("VERIF_SEED", "1"))
+    if "--replay" in argv:
+        # re-execute, without the cache and on the current tree, the exploration that produced the
+        # violation recorded in the replay file (same engine seed / configuration), then judge again
+        path = argv[argv.index("--replay") + 1]
+        try:
+            rec = json.load(open(path))
+            org = rec.get("violation", {}).get("origin", {})
+            if "seed" in org:
+                seed = org["seed"] // 1000 if org.get("engine", "").startswith("drive") else org["seed"]
+            print("replaying %s: %s" % (path, json.dumps({k: org.get(k) for k in ("engine", "seed", "features", "release", "cfg", "archetype")})))
+            print("recorded: %s" % rec.get("violation", {}).get("what"))
+        except Exception as e:
+            print("TOOL-ERROR cannot read replay file: %s" % e, file=sys.stderr)
+            return 2
+        os.environ["VERIF_NO_CACHE"] = "1"
     try:
         if pid not in PROPS:
             raise ToolError("unknown property " + pid)
